@@ -385,6 +385,31 @@ def _probe_steps(case, ctx, sg, d, p, spec, use, stem, data, d1, snap, sr):
             ctx.call("C09.rt_reader", sr2.close)
 
 
+def _caller_edits(ctx, sg, p, snap):
+    """A dictionary handed out by the parser belongs to the caller: editing it - list values in place, as the converter and
+    the reconstructor do when they derive the header of an LF or shank file - must not show in the next parse of the file."""
+    mine = ctx.call("C09.read", sg.read_meta_data, p)
+    if mine is ctx.CRASH or not isinstance(mine, dict):
+        return
+    nlist = 0
+    for k in list(mine):
+        v = mine[k]
+        if isinstance(v, list) and v:
+            v[0] = 0 if v[0] != 0 else 7
+            v.append(99)
+            nlist += 1
+    mine["typeThis"] = "edited"
+    mine["fileTimeSecs"] = -1.0
+    if nlist:
+        ctx.label("caller_edits_list_values")
+    again = ctx.call("C09.read", sg.read_meta_data, p)
+    if again is ctx.CRASH or not ctx.check(isinstance(again, dict), "C09.parse", "parse after an edit did not return a dict"):
+        return
+    ok, why = _same(snap, dict(again))
+    ctx.check(ok, "C09.parse_shared_state", lambda: "a parse of the untouched file shows the edits another caller made to the "
+                                                     "dictionary of an earlier parse: " + why)
+
+
 def run_case(case, ctx):
     sg = sut.spikeglx()
     with rec.scratch_dir(ctx) as d:
@@ -413,6 +438,7 @@ def run_case(case, ctx):
             ok, why = _eq(exp, d1)
             ctx.check(ok, "C09.parse", lambda: "parsed dictionary differs from the generated values: " + why)
             _roundtrip(ctx, sg, d, p, d1)
+            _caller_edits(ctx, sg, p, copy.deepcopy(dict(d1)))
             return
         # ---- probe grammar
         spec = case["spec"]
@@ -447,3 +473,4 @@ def run_case(case, ctx):
             _probe_steps(case, ctx, sg, d, p, spec, use, stem, data, d1, snap, sr)
         finally:
             ctx.call("C09.reader", sr.close)
+        _caller_edits(ctx, sg, p, snap)
